@@ -60,6 +60,7 @@ d61bc2a:C19
 f411dd9:C17
 a487d12:C17
 50e2d9c:C17
+a96e78b:C18
 "
 [ -n "$REVERT_ONLY" ] && PAIRS="$REVERT_ONLY"
 for pair in $PAIRS; do
